@@ -4,6 +4,7 @@ import (
 	"bufio"
 	"fmt"
 	"go/ast"
+	"go/constant"
 	"go/printer"
 	"go/token"
 	"go/types"
@@ -179,8 +180,18 @@ func TypeShape(tn *types.TypeName) string {
 		}
 		return "struct{" + strings.Join(parts, "; ") + "}"
 	}
-	if _, ok := u.(*types.Interface); ok {
-		return "interface " + strings.Join(strings.Fields(types.TypeString(u, q)), " ")
+	if it, ok := u.(*types.Interface); ok {
+		// method names dropped as well (a rename of the interface usually comes with renames of its methods): the sorted
+		// signatures of the explicit methods and the embedded types
+		var parts []string
+		for i := 0; i < it.NumExplicitMethods(); i++ {
+			parts = append(parts, SigShape(it.ExplicitMethod(i)))
+		}
+		for i := 0; i < it.NumEmbeddeds(); i++ {
+			parts = append(parts, "embeds "+types.TypeString(it.EmbeddedType(i), q))
+		}
+		sort.Strings(parts)
+		return "interface{" + strings.Join(parts, "; ") + "}"
 	}
 	return strings.Join(strings.Fields(types.TypeString(u, q)), " ")
 }
@@ -203,6 +214,10 @@ func FuncFingerprint(info *types.Info, modulePath string, fd *ast.FuncDecl) []st
 						name = f.Pkg().Path() + "." + r.Obj().Name() + "." + f.Name()
 					}
 					toks = append(toks, "c:"+name)
+				} else {
+					// functions of the module itself, by the name the rules know them by: they only tell tiny bodies apart
+					// (fingerprintSimilarity ignores them, a rename of a callee must not make its callers look different)
+					toks = append(toks, "m:"+OldName(f))
 				}
 			} else if id, ok := unparen(x.Fun).(*ast.Ident); ok {
 				if _, isB := info.Uses[id].(*types.Builtin); isB {
@@ -242,23 +257,83 @@ func FuncFingerprint(info *types.Info, modulePath string, fd *ast.FuncDecl) []st
 	return toks
 }
 
+// CallerTokens gives, for every function declared in p, the tokens "by:<DeclName>" of the functions of p that mention it
+// (call it or use it as a value), in the spelling the rules know: who uses a function changes less under refactoring than
+// its signature or its body.
+func CallerTokens(p *packages.Package) map[*types.Func][]string {
+	out := map[*types.Func]map[string]bool{}
+	for _, file := range p.Syntax {
+		for _, d := range file.Decls {
+			fd, ok := d.(*ast.FuncDecl)
+			if !ok || fd.Body == nil {
+				continue
+			}
+			self, _ := p.TypesInfo.Defs[fd.Name].(*types.Func)
+			name := DeclName(fd)
+			ast.Inspect(fd.Body, func(x ast.Node) bool {
+				if id, ok := x.(*ast.Ident); ok {
+					if f, ok := p.TypesInfo.Uses[id].(*types.Func); ok && f.Pkg() == p.Types && f.Origin() != self {
+						if out[f.Origin()] == nil {
+							out[f.Origin()] = map[string]bool{}
+						}
+						out[f.Origin()]["by:"+name] = true
+					}
+				}
+				return true
+			})
+		}
+	}
+	res := map[*types.Func][]string{}
+	for f, set := range out {
+		for t := range set {
+			res[f] = append(res[f], t)
+		}
+		sort.Strings(res[f])
+	}
+	return res
+}
+
+func contextToken(t string) bool { return strings.HasPrefix(t, "m:") || strings.HasPrefix(t, "by:") }
+
+// externalTokens counts the tokens of a fingerprint that do not name functions of the module itself.
+func externalTokens(fp []string) int {
+	n := 0
+	for _, t := range fp {
+		if !contextToken(t) {
+			n++
+		}
+	}
+	return n
+}
+
 // fingerprintSimilarity is the Jaccard index of two token multisets.
 func fingerprintSimilarity(a, b []string) float64 {
 	if len(a) == 0 || len(b) == 0 {
 		return 0
 	}
 	ca := map[string]int{}
+	na, nb := 0, 0
 	for _, t := range a {
-		ca[t]++
+		if !contextToken(t) {
+			ca[t]++
+			na++
+		}
 	}
 	inter := 0
 	for _, t := range b {
+		if contextToken(t) {
+			continue
+		}
+		nb++
 		if ca[t] > 0 {
 			ca[t]--
 			inter++
 		}
 	}
-	return float64(inter) / float64(len(a)+len(b)-inter)
+	if na == 0 || nb == 0 {
+		return 0
+	}
+	return float64(inter) / float64(na+nb-inter)
 }
 
 // renamedFuncs maps a function that was recognised as the renamed successor of a known function to the old simple
@@ -370,7 +445,7 @@ func FoldNewHelpers(m *Module) []string {
 				}
 			}
 		}
-		if len(fo.fresh) == 0 {
+		if len(fo.fresh) == 0 && len(fo.typeFresh) == 0 && len(fo.typeOld) == 0 {
 			continue
 		}
 		// renamed types: a known type that is gone and exactly one new type of the same shape (both ways); renamed fields:
@@ -395,6 +470,127 @@ func FoldNewHelpers(m *Module) []string {
 			return ""
 		}
 		prefix := m.Name + "\t" + rel + "\t"
+		simpleOf := func(declName string) string {
+			if i := strings.LastIndex(declName, "."); i >= 0 {
+				return declName[i+1:]
+			}
+			return declName
+		}
+		recordRename := func(key string, f *types.Func, how string) {
+			oldDecl := strings.TrimPrefix(key, prefix)
+			if m.Renamed == nil {
+				m.Renamed = map[string]*types.Func{}
+			}
+			m.Renamed[rel+"\t"+oldDecl] = f
+			renamedFuncs.Store(f, simpleOf(oldDecl))
+			log = append(log, rel+"."+oldDecl+" "+how+" "+f.Name())
+			delete(fo.fresh, f)
+			present[key] = true
+		}
+		// stage 0, method names: a rename of a method that several types implement (the methods behind an interface) renames
+		// it on every receiver.  A vanished name and a new name are the same method when they have the same receivers, the
+		// same signature on each, and on each receiver the bodies have the same fingerprint (tiny bodies: exactly the same
+		// tokens) — the conjunction over the receivers tells apart what a single body cannot (`)` closes maps and arrays
+		// alike in one syntax, but not in the other).
+		for again := true; again; {
+			again = false
+			vanishedByName := map[string]map[string]string{} // simple name -> receiver -> key
+			for key, shape := range known {
+				if !strings.HasPrefix(key, prefix) || present[key] || shape == "" {
+					continue
+				}
+				d := strings.TrimPrefix(key, prefix)
+				if strings.Contains(d, " ") || recvOf(d) == "" {
+					continue
+				}
+				if vanishedByName[simpleOf(d)] == nil {
+					vanishedByName[simpleOf(d)] = map[string]string{}
+				}
+				vanishedByName[simpleOf(d)][recvOf(d)] = key
+			}
+			freshByName := map[string]map[string]*types.Func{}
+			for f, fd := range fo.fresh {
+				d := DeclName(fd)
+				if recvOf(d) == "" {
+					continue
+				}
+				if freshByName[f.Name()] == nil {
+					freshByName[f.Name()] = map[string]*types.Func{}
+				}
+				freshByName[f.Name()][recvOf(d)] = f
+			}
+			sameTokens := func(a, b []string) bool {
+				strip := func(in []string) []string {
+					var out []string
+					for _, t := range in {
+						if !strings.HasPrefix(t, "by:") {
+							out = append(out, t)
+						}
+					}
+					return out
+				}
+				a, b = strip(a), strip(b)
+				if len(a) != len(b) {
+					return false
+				}
+				for i := range a {
+					if a[i] != b[i] {
+						return false
+					}
+				}
+				return true
+			}
+			compatible := func(v map[string]string, f map[string]*types.Func) bool {
+				if len(v) != len(f) {
+					return false
+				}
+				for r, key := range v {
+					g := f[r]
+					if g == nil || fo.newSide(SigShape(g)) != fo.oldSide(known[key]) {
+						return false
+					}
+					a, b := knownFingerprints[key], FuncFingerprint(fo.info, m.Path, fo.fresh[g])
+					if len(a) < 6 || len(b) < 6 {
+						if !sameTokens(a, b) {
+							return false
+						}
+					} else if fingerprintSimilarity(a, b) < 0.7 {
+						return false
+					}
+				}
+				return true
+			}
+			vc := map[string][]string{}
+			fh := map[string]int{}
+			for vn, v := range vanishedByName {
+				for fn, f := range freshByName {
+					if compatible(v, f) {
+						vc[vn] = append(vc[vn], fn)
+						fh[fn]++
+					}
+				}
+			}
+			var vns []string
+			for vn := range vc {
+				vns = append(vns, vn)
+			}
+			sort.Strings(vns)
+			for _, vn := range vns {
+				if len(vc[vn]) != 1 || fh[vc[vn][0]] != 1 {
+					continue
+				}
+				fn := vc[vn][0]
+				var rs []string
+				for r := range vanishedByName[vn] {
+					rs = append(rs, r)
+				}
+				sort.Strings(rs)
+				for _, r := range rs {
+					recordRename(vanishedByName[vn][r], freshByName[fn][r], "renamed (on every receiver) to")
+				}
+				again = true // what was recognised changes how the callers of these methods are spelled
+			}
+		}
 		cands := map[string][]*types.Func{} // vanished key -> candidates
 		hits := map[*types.Func]int{}
 		for key, shape := range known {
@@ -403,7 +599,7 @@ func FoldNewHelpers(m *Module) []string {
 			}
 			oldDecl := strings.TrimPrefix(key, prefix)
 			for f, fd := range fo.fresh {
-				if recvOf(DeclName(fd)) == recvOf(oldDecl) && SigShape(f) == shape {
+				if recvOf(DeclName(fd)) == recvOf(oldDecl) && fo.newSide(SigShape(f)) == fo.oldSide(shape) {
 					cands[key] = append(cands[key], f)
 					hits[f]++
 				}
@@ -440,7 +636,7 @@ func FoldNewHelpers(m *Module) []string {
 				if !strings.HasPrefix(key, prefix) || present[key] || strings.Contains(strings.TrimPrefix(key, prefix), " ") {
 					continue
 				}
-				if fp := knownFingerprints[key]; len(fp) >= 3 {
+				if fp := knownFingerprints[key]; externalTokens(fp) >= 3 {
 					vanished = append(vanished, fpOf{key, fp})
 				}
 			}
@@ -490,8 +686,87 @@ func FoldNewHelpers(m *Module) []string {
 				delete(freshFP, f)
 			}
 		}
+		// third stage, for functions whose signature and body both changed: a vanished function and a new one that are used
+		// by exactly the same functions of the package (a non-empty set, in the old spelling) and by no others are the same
+		// function, when each is the other's only such match
+		{
+			oldDecl := map[*types.Func]string{}
+			for key, f := range m.Renamed {
+				if strings.HasPrefix(key, rel+"\t") {
+					oldDecl[f] = strings.TrimPrefix(key, rel+"\t")
+				}
+			}
+			users := map[*types.Func]map[string]bool{}
+			for _, file := range p.Syntax {
+				if strings.HasSuffix(m.Fset.File(file.Pos()).Name(), "_test.go") {
+					continue
+				}
+				for _, d := range file.Decls {
+					cfd, ok := d.(*ast.FuncDecl)
+					if !ok || cfd.Body == nil {
+						continue
+					}
+					self, _ := fo.info.Defs[cfd.Name].(*types.Func)
+					name := DeclName(cfd)
+					if o, ok := oldDecl[self]; ok {
+						name = o
+					}
+					ast.Inspect(cfd.Body, func(x ast.Node) bool {
+						if id, ok := x.(*ast.Ident); ok {
+							if g, ok := fo.info.Uses[id].(*types.Func); ok && g.Pkg() == p.Types && g.Origin() != self {
+								if users[g.Origin()] == nil {
+									users[g.Origin()] = map[string]bool{}
+								}
+								users[g.Origin()]["by:"+name] = true
+							}
+						}
+						return true
+					})
+				}
+			}
+			setKey := func(set map[string]bool) string {
+				var ts []string
+				for t := range set {
+					ts = append(ts, t)
+				}
+				sort.Strings(ts)
+				return strings.Join(ts, "\x1f")
+			}
+			vanishedBy := map[string][]string{} // caller set -> vanished keys
+			for key := range known {
+				if !strings.HasPrefix(key, prefix) || present[key] || strings.Contains(strings.TrimPrefix(key, prefix), " ") {
+					continue
+				}
+				set := map[string]bool{}
+				for _, t := range knownFingerprints[key] {
+					if strings.HasPrefix(t, "by:") {
+						set[t] = true
+					}
+				}
+				if len(set) > 0 {
+					vanishedBy[setKey(set)] = append(vanishedBy[setKey(set)], key)
+				}
+			}
+			freshBy := map[string][]*types.Func{}
+			for f := range fo.fresh {
+				if len(users[f]) > 0 {
+					freshBy[setKey(users[f])] = append(freshBy[setKey(users[f])], f)
+				}
+			}
+			var sets []string
+			for k := range vanishedBy {
+				sets = append(sets, k)
+			}
+			sort.Strings(sets)
+			for _, k := range sets {
+				if len(vanishedBy[k]) == 1 && len(freshBy[k]) == 1 {
+					recordRename(vanishedBy[k][0], freshBy[k][0], "is now (same users: "+strings.ReplaceAll(strings.ReplaceAll(k, "\x1f", ", "), "by:", "")+")")
+				}
+			}
+		}
 		// interface methods follow their implementations: if every renamed method old -> new has an interface of the package
 		// declaring new (and not old), that interface method is known to the rules as old
+		ifaceRenamed := map[*types.Func]string{}
 		for key, f := range m.Renamed {
 			if !strings.HasPrefix(key, rel+"\t") {
 				continue
@@ -521,11 +796,44 @@ func FoldNewHelpers(m *Module) []string {
 				}
 				if newM != nil && !hasOld {
 					renamedFuncs.Store(newM, oldSimple.(string))
+					ifaceRenamed[newM] = oldSimple.(string)
 				}
 			}
 		}
-		if len(fo.fresh) == 0 {
-			continue
+		// the identifiers of a renamed function (its declaration, calls, method values, the interface method) get their old
+		// spelling back on the loaded trees, like those of renamed types and fields: rules that look at names in the syntax
+		// see the names they were written for
+		{
+			respell := map[*types.Func]string{}
+			for key, f := range m.Renamed {
+				if strings.HasPrefix(key, rel+"\t") {
+					if o, ok := renamedFuncs.Load(f); ok && o.(string) != f.Name() {
+						respell[f] = o.(string)
+					}
+				}
+			}
+			for f, n := range ifaceRenamed {
+				respell[f] = n
+			}
+			if len(respell) > 0 {
+				m.CallGraph()
+				for _, q := range m.Roots {
+					for id, o := range q.TypesInfo.Uses {
+						if fn, ok := o.(*types.Func); ok {
+							if n, ok := respell[fn.Origin()]; ok {
+								id.Name = n
+							}
+						}
+					}
+					for id, o := range q.TypesInfo.Defs {
+						if fn, ok := o.(*types.Func); ok {
+							if n, ok := respell[fn.Origin()]; ok {
+								id.Name = n
+							}
+						}
+					}
+				}
+			}
 		}
 		// the SSA program and call graph are built from the trees as loaded: build them before any tree is changed
 		m.CallGraph()
@@ -546,6 +854,41 @@ func FoldNewHelpers(m *Module) []string {
 				break
 			}
 		}
+		// a known function whose parameters were reordered (same types, all different, another order) gets the old order
+		// back, in its declaration and at every call: rules that look at "the second argument" keep looking at the status
+		for _, file := range p.Syntax {
+			if strings.HasSuffix(m.Fset.File(file.Pos()).Name(), "_test.go") {
+				continue
+			}
+			for _, d := range file.Decls {
+				if fd, ok := d.(*ast.FuncDecl); ok && fd.Body != nil {
+					if shape, isKnown := known[FuncKey(m.Name, rel, fd)]; isKnown && shape != "" {
+						if fo.restoreParamOrder(fd, shape) {
+							fo.touch(fd)
+							log = append(log, fmt.Sprintf("%s.%s: parameters put back in their old order", rel, DeclName(fd)))
+						}
+					}
+				}
+			}
+		}
+		// a parameter of a struct type that did not exist when the rules were confirmed ("introduce parameter object") is
+		// taken apart again: one parameter per field, the struct rebuilt as a local (which the next step replaces by its fields)
+		for _, file := range p.Syntax {
+			if strings.HasSuffix(m.Fset.File(file.Pos()).Name(), "_test.go") {
+				continue
+			}
+			for _, d := range file.Decls {
+				if fd, ok := d.(*ast.FuncDecl); ok && fd.Body != nil {
+					if n := fo.expandParamObjects(fd, func(tn *types.TypeName) bool {
+						_, isKnown := known[m.Name+"\t"+rel+"\ttype "+tn.Name()]
+						return !isKnown && tn.Pkg() == p.Types
+					}); n > 0 {
+						fo.touch(fd)
+						log = append(log, fmt.Sprintf("%s.%s: %d parameter object(s) replaced by their fields", rel, DeclName(fd), n))
+					}
+				}
+			}
+		}
 		// locals of struct types that did not exist when the rules were confirmed (the captured variables of a closure
 		// moved into a small state struct) are replaced by one variable per field
 		for _, file := range p.Syntax {
@@ -562,6 +905,13 @@ func FoldNewHelpers(m *Module) []string {
 						log = append(log, fmt.Sprintf("%s.%s: %d struct local(s) replaced by their fields", rel, DeclName(fd), n))
 					}
 				}
+			}
+		}
+		// a local that is nothing but a copy of a parameter which is not used otherwise (`method := httpMethod` at the top of
+		// a function, what is left of `wire := request{method: httpMethod}`) is that parameter
+		for fd := range fo.touched {
+			if n := fo.coalesceParamCopies(fd); n > 0 {
+				log = append(log, fmt.Sprintf("%s.%s: %d copy(ies) of a parameter merged with it", rel, DeclName(fd), n))
 			}
 		}
 		for fd := range fo.touched {
@@ -587,7 +937,50 @@ func FoldNewHelpers(m *Module) []string {
 	return log
 }
 
+// respellTypes rewrites the unqualified type names in a rendered type: names in subst are replaced by their value, names
+// in unknown by "?".  A name is unqualified when it is not part of a package path or a selector.
+func respellTypes(s string, subst map[string]string, unknown map[string]bool) string {
+	if len(subst) == 0 && len(unknown) == 0 {
+		return s
+	}
+	isWord := func(c byte) bool {
+		return c == '_' || c >= '0' && c <= '9' || c >= 'a' && c <= 'z' || c >= 'A' && c <= 'Z' || c >= 0x80
+	}
+	var b strings.Builder
+	for i := 0; i < len(s); {
+		if !isWord(s[i]) {
+			b.WriteByte(s[i])
+			i++
+			continue
+		}
+		j := i
+		for j < len(s) && isWord(s[j]) {
+			j++
+		}
+		w := s[i:j]
+		qualified := (i > 0 && (s[i-1] == '.' || s[i-1] == '/')) || (j < len(s) && (s[j] == '.' || s[j] == '/'))
+		switch {
+		case qualified:
+			b.WriteString(w)
+		case subst[w] != "":
+			b.WriteString(subst[w])
+		case unknown[w]:
+			b.WriteByte('?')
+		default:
+			b.WriteString(w)
+		}
+		i = j
+	}
+	return b.String()
+}
+
 type folder struct {
+	// typeOld: new name -> old name of the types recognised as renamed; typeFresh / typeGone: the names of new types
+	// that are not recognised and of known types that no longer exist (both render as "?" when shapes are compared).
+	typeOld   map[string]string
+	typeFresh map[string]bool
+	typeGone  map[string]bool
+
 	m      *Module
 	p      *packages.Package
 	info   *types.Info
@@ -754,6 +1147,37 @@ func (fo *folder) foldRound() bool {
 			if efd := enclosingDecl(file, call.Pos(), c); efd != nil {
 				fo.touch(efd)
 			}
+			changed = true
+			return false
+		}, nil)
+		// a function literal that is called on the spot and only returns an expression (what `compute()` becomes once a
+		// literal was substituted for the parameter `compute`) is that expression
+		astutil.Apply(file, func(c *astutil.Cursor) bool {
+			call, ok := c.Node().(*ast.CallExpr)
+			if !ok || len(call.Args) != 0 {
+				return true
+			}
+			lit, ok := unparen(call.Fun).(*ast.FuncLit)
+			if !ok || (lit.Type.Params != nil && len(lit.Type.Params.List) > 0) || len(lit.Body.List) != 1 {
+				return true
+			}
+			ret, ok := lit.Body.List[0].(*ast.ReturnStmt)
+			if !ok || len(ret.Results) != 1 {
+				return true
+			}
+			efd := enclosingDecl(file, call.Pos(), c)
+			if efd == nil || !fo.touched[efd] {
+				return true
+			}
+			e := ret.Results[0]
+			pe := &ast.ParenExpr{X: e, Lparen: e.Pos(), Rparen: e.End()}
+			if tv, ok := fo.info.Types[call]; ok {
+				fo.info.Types[pe] = tv
+			}
+			if pre, ok := fo.prefix[lit]; ok {
+				fo.prefix[pe] = pre
+			}
+			c.Replace(pe)
 			changed = true
 			return false
 		}, nil)
@@ -1427,6 +1851,11 @@ func (fo *folder) foldStmt(s ast.Stmt, within *ast.FuncDecl) ([]ast.Stmt, bool) 
 	return out, true
 }
 
+// newSide renders a type string computed on the current tree the way the known-functions file spells it; oldSide
+// prepares a string of that file for the comparison (see typeAndFieldRenames).
+func (fo *folder) newSide(s string) string { return respellTypes(s, fo.typeOld, fo.typeFresh) }
+func (fo *folder) oldSide(s string) string { return respellTypes(s, nil, fo.typeGone) }
+
 func (fo *folder) typeAndFieldRenames(m *Module, rel string, known map[string]string, log *[]string) {
 	p := fo.p
 	prefix := m.Name + "\t" + rel + "\t"
@@ -1441,33 +1870,60 @@ func (fo *folder) typeAndFieldRenames(m *Module, rel string, known map[string]st
 			}
 		}
 	}
-	typeCands := map[string][]*types.TypeName{}
-	typeHits := map[*types.TypeName]int{}
-	for key, shape := range known {
-		if !strings.HasPrefix(key, prefix+"type ") || shape == "" {
-			continue
-		}
-		oldName := strings.TrimPrefix(key, prefix+"type ")
-		if scope.Lookup(oldName) != nil {
-			continue
-		}
-		for _, tn := range freshTypes {
-			if TypeShape(tn) == shape {
-				typeCands[oldName] = append(typeCands[oldName], tn)
-				typeHits[tn]++
+	renamed := map[types.Object]string{}
+	fo.typeOld, fo.typeFresh, fo.typeGone = map[string]string{}, map[string]bool{}, map[string]bool{}
+	for _, tn := range freshTypes {
+		fo.typeFresh[tn.Name()] = true
+	}
+	for key := range known {
+		if strings.HasPrefix(key, prefix+"type ") {
+			if n := strings.TrimPrefix(key, prefix+"type "); scope.Lookup(n) == nil {
+				fo.typeGone[n] = true
 			}
 		}
 	}
-	renamed := map[types.Object]string{}
-	for oldName, tns := range typeCands {
-		if len(tns) == 1 && typeHits[tns[0]] == 1 {
-			oldOf[tns[0]] = oldName
-			renamed[tns[0]] = oldName
-			if m.RenamedObjs == nil {
-				m.RenamedObjs = map[string]types.Object{}
+	// a type that is gone and exactly one new type of the same shape (both ways).  Shapes mention other types of the
+	// package, which may be renamed as well: the names of types not (yet) matched compare as "?", and matching is
+	// repeated with what is known so far until nothing new is found.
+	for progress := true; progress; {
+		progress = false
+		typeCands := map[string][]*types.TypeName{}
+		typeHits := map[*types.TypeName]int{}
+		for key, shape := range known {
+			if !strings.HasPrefix(key, prefix+"type ") || shape == "" {
+				continue
 			}
-			m.RenamedObjs[rel+"\t"+oldName] = tns[0]
-			*log = append(*log, rel+".type "+oldName+" renamed to "+tns[0].Name())
+			oldName := strings.TrimPrefix(key, prefix+"type ")
+			if !fo.typeGone[oldName] {
+				continue
+			}
+			for _, tn := range freshTypes {
+				if fo.typeFresh[tn.Name()] && fo.newSide(TypeShape(tn)) == fo.oldSide(shape) {
+					typeCands[oldName] = append(typeCands[oldName], tn)
+					typeHits[tn]++
+				}
+			}
+		}
+		var names []string
+		for oldName := range typeCands {
+			names = append(names, oldName)
+		}
+		sort.Strings(names)
+		for _, oldName := range names {
+			tns := typeCands[oldName]
+			if len(tns) == 1 && typeHits[tns[0]] == 1 {
+				oldOf[tns[0]] = oldName
+				renamed[tns[0]] = oldName
+				if m.RenamedObjs == nil {
+					m.RenamedObjs = map[string]types.Object{}
+				}
+				m.RenamedObjs[rel+"\t"+oldName] = tns[0]
+				*log = append(*log, rel+".type "+oldName+" renamed to "+tns[0].Name())
+				fo.typeOld[tns[0].Name()] = oldName
+				delete(fo.typeFresh, tns[0].Name())
+				delete(fo.typeGone, oldName)
+				progress = true
+			}
 		}
 	}
 	// package-level constants (same type and value) and variables (same type)
@@ -1502,7 +1958,7 @@ func (fo *folder) typeAndFieldRenames(m *Module, rel string, known map[string]st
 				continue
 			}
 			for _, o := range freshObjs {
-				if _, sh := shapeOf(o); sh == shape {
+				if _, sh := shapeOf(o); fo.newSide(sh) == fo.oldSide(shape) {
 					cands[oldName] = append(cands[oldName], o)
 					hits[o]++
 				}
@@ -1591,7 +2047,7 @@ func (fo *folder) typeAndFieldRenames(m *Module, rel string, known map[string]st
 				if _, isKnown := known[fprefix+f.Name()]; isKnown || f.Embedded() {
 					continue
 				}
-				if types.TypeString(f.Type(), q) == ft {
+				if fo.newSide(types.TypeString(f.Type(), q)) == fo.oldSide(ft) {
 					cands[oldField] = append(cands[oldField], f)
 					hits[f]++
 				}
@@ -1631,6 +2087,482 @@ func (fo *folder) typeAndFieldRenames(m *Module, rel string, known map[string]st
 			}
 		}
 	}
+}
+
+// splitTopLevel splits "a, func(b, c) d, e" at the commas that are not nested in brackets.
+func splitTopLevel(s string) []string {
+	var out []string
+	depth, start := 0, 0
+	for i := 0; i < len(s); i++ {
+		switch s[i] {
+		case '(', '[', '{':
+			depth++
+		case ')', ']', '}':
+			depth--
+		case ',':
+			if depth == 0 {
+				out = append(out, strings.TrimSpace(s[start:i]))
+				start = i + 1
+			}
+		}
+	}
+	if strings.TrimSpace(s[start:]) != "" {
+		out = append(out, strings.TrimSpace(s[start:]))
+	}
+	return out
+}
+
+// restoreParamOrder: fd is a known function (possibly renamed) whose recorded signature has the same parameter types as
+// today's, all distinct, in another order.  The declaration and every call get the recorded order back.
+func (fo *folder) restoreParamOrder(fd *ast.FuncDecl, knownShape string) bool {
+	info := fo.info
+	f, _ := info.Defs[fd.Name].(*types.Func)
+	if f == nil {
+		return false
+	}
+	cur := fo.newSide(SigShape(f))
+	old := fo.oldSide(knownShape)
+	if cur == old {
+		return false
+	}
+	params := func(shape string) ([]string, string, bool) {
+		if !strings.HasPrefix(shape, "(") {
+			return nil, "", false
+		}
+		depth := 0
+		for i := 0; i < len(shape); i++ {
+			switch shape[i] {
+			case '(':
+				depth++
+			case ')':
+				depth--
+				if depth == 0 {
+					return splitTopLevel(shape[1:i]), shape[i+1:], true
+				}
+			}
+		}
+		return nil, "", false
+	}
+	cp, cr, ok1 := params(cur)
+	op, or, ok2 := params(old)
+	if !ok1 || !ok2 || cr != or || len(cp) != len(op) || len(cp) < 2 {
+		return false
+	}
+	pos := map[string]int{}
+	for i, t := range cp {
+		if _, dup := pos[t]; dup {
+			return false
+		}
+		pos[t] = i
+	}
+	perm := make([]int, len(op)) // old position -> current position
+	same := true
+	for i, t := range op {
+		j, ok := pos[t]
+		if !ok {
+			return false
+		}
+		perm[i] = j
+		if i != j {
+			same = false
+		}
+	}
+	if same {
+		return false
+	}
+	if strings.HasPrefix(cp[len(cp)-1], "...") != strings.HasPrefix(op[len(op)-1], "...") || (strings.HasPrefix(cp[len(cp)-1], "...") && perm[len(op)-1] != len(cp)-1) {
+		return false
+	}
+	// one parameter per field in the declaration
+	var single []*ast.Field
+	for _, fl := range fd.Type.Params.List {
+		if len(fl.Names) == 0 {
+			return false
+		}
+		for _, nm := range fl.Names {
+			single = append(single, &ast.Field{Names: []*ast.Ident{nm}, Type: fl.Type})
+		}
+	}
+	if len(single) != len(cp) {
+		return false
+	}
+	// every reference is a plain call with one argument per parameter
+	var calls []*ast.CallExpr
+	okAll := true
+	for _, q := range fo.m.Roots {
+		for _, file := range q.Syntax {
+			par := Parents(file)
+			ast.Inspect(file, func(x ast.Node) bool {
+				id, ok := x.(*ast.Ident)
+				if !ok {
+					return true
+				}
+				u, _ := q.TypesInfo.Uses[id].(*types.Func)
+				if u == nil || u.Origin() != f {
+					return true
+				}
+				var fun ast.Expr = id
+				if sel, ok := par[id].(*ast.SelectorExpr); ok && sel.Sel == id {
+					fun = sel
+				}
+				for {
+					if pe, ok := par[fun].(*ast.ParenExpr); ok {
+						fun = pe
+						continue
+					}
+					if ie, ok := par[fun].(*ast.IndexExpr); ok && ie.X == fun {
+						fun = ie
+						continue
+					}
+					if ie, ok := par[fun].(*ast.IndexListExpr); ok && ie.X == fun {
+						fun = ie
+						continue
+					}
+					break
+				}
+				call, ok := par[fun].(*ast.CallExpr)
+				if !ok || call.Fun != fun || len(call.Args) < len(cp)-1 || (len(call.Args) == 1 && len(cp) > 1) {
+					okAll = false
+					return true
+				}
+				calls = append(calls, call)
+				return true
+			})
+		}
+	}
+	if !okAll {
+		return false
+	}
+	variadic := strings.HasPrefix(cp[len(cp)-1], "...")
+	fixed := len(cp)
+	if variadic {
+		fixed--
+	}
+	for _, call := range calls {
+		if len(call.Args) < fixed {
+			return false
+		}
+	}
+	reordered := make([]*ast.Field, len(single))
+	for i := range op {
+		reordered[i] = single[perm[i]]
+	}
+	fd.Type.Params.List = reordered
+	for _, call := range calls {
+		args := make([]ast.Expr, 0, len(call.Args))
+		for i := 0; i < fixed; i++ {
+			args = append(args, call.Args[perm[i]])
+		}
+		args = append(args, call.Args[fixed:]...)
+		call.Args = args
+		for _, q := range fo.m.Roots {
+			for _, file := range q.Syntax {
+				if file.Pos() <= call.Pos() && call.Pos() <= file.End() && q == fo.p {
+					for _, d := range file.Decls {
+						if cfd, ok := d.(*ast.FuncDecl); ok && cfd.Pos() <= call.Pos() && call.Pos() <= cfd.End() {
+							fo.touch(cfd)
+						}
+					}
+				}
+			}
+		}
+	}
+	return true
+}
+
+// zeroValueExpr builds the expression of the zero value of t with its type information, or nil for types whose zero value
+// needs a type expression (structs, arrays).
+func (fo *folder) zeroValueExpr(t types.Type, pos token.Pos) ast.Expr {
+	switch u := t.Underlying().(type) {
+	case *types.Basic:
+		switch {
+		case u.Info()&types.IsString != 0:
+			l := &ast.BasicLit{Kind: token.STRING, Value: `""`, ValuePos: pos}
+			fo.info.Types[l] = types.TypeAndValue{Type: t, Value: constant.MakeString("")}
+			return l
+		case u.Info()&types.IsBoolean != 0:
+			id := &ast.Ident{Name: "false", NamePos: pos}
+			fo.info.Uses[id] = types.Universe.Lookup("false")
+			fo.info.Types[id] = types.TypeAndValue{Type: t, Value: constant.MakeBool(false)}
+			return id
+		case u.Info()&types.IsNumeric != 0:
+			l := &ast.BasicLit{Kind: token.INT, Value: "0", ValuePos: pos}
+			fo.info.Types[l] = types.TypeAndValue{Type: t, Value: constant.MakeInt64(0)}
+			return l
+		}
+	case *types.Pointer, *types.Slice, *types.Map, *types.Interface, *types.Signature, *types.Chan:
+		id := &ast.Ident{Name: "nil", NamePos: pos}
+		fo.info.Uses[id] = types.Universe.Lookup("nil")
+		fo.info.Types[id] = types.TypeAndValue{Type: types.Typ[types.UntypedNil]}
+		return id
+	}
+	return nil
+}
+
+// expandParamObjects rewrites fd and its call sites when fd has a parameter of a fresh named struct type that the body
+// only uses field by field and every call site passes as a keyed composite literal: the parameter becomes one parameter
+// per field and the struct is rebuilt as a local at the top of the body.
+func (fo *folder) expandParamObjects(fd *ast.FuncDecl, fresh func(*types.TypeName) bool) int {
+	info := fo.info
+	f, _ := info.Defs[fd.Name].(*types.Func)
+	if f == nil || fd.Type.Params == nil {
+		return 0
+	}
+	if fo.prefix == nil {
+		fo.prefix = map[ast.Node][]token.Pos{}
+	}
+	count := 0
+	for pi := 0; pi < len(fd.Type.Params.List); pi++ {
+		fl := fd.Type.Params.List[pi]
+		if len(fl.Names) != 1 {
+			continue
+		}
+		pobj := info.Defs[fl.Names[0]]
+		if pobj == nil {
+			continue
+		}
+		named, ok := pobj.Type().(*types.Named)
+		if !ok || !fresh(named.Obj()) {
+			continue
+		}
+		st, ok := named.Underlying().(*types.Struct)
+		if !ok || st.NumFields() == 0 {
+			continue
+		}
+		// index of this parameter among the arguments
+		argIdx := 0
+		for _, g := range fd.Type.Params.List[:pi] {
+			if len(g.Names) == 0 {
+				argIdx++
+			}
+			argIdx += len(g.Names)
+		}
+		// every reference to the function is a call with a composite literal in that position
+		type site struct {
+			call *ast.CallExpr
+			lit  *ast.CompositeLit
+		}
+		var sites []site
+		okAll := true
+		for _, file := range fo.p.Syntax {
+			par := Parents(file)
+			ast.Inspect(file, func(x ast.Node) bool {
+				id, ok := x.(*ast.Ident)
+				if !ok {
+					return true
+				}
+				u, _ := info.Uses[id].(*types.Func)
+				if u == nil || u.Origin() != f {
+					return true
+				}
+				var fun ast.Expr = id
+				if sel, ok := par[id].(*ast.SelectorExpr); ok && sel.Sel == id {
+					fun = sel
+				}
+				for {
+					if pe, ok := par[fun].(*ast.ParenExpr); ok {
+						fun = pe
+						continue
+					}
+					if ie, ok := par[fun].(*ast.IndexExpr); ok && ie.X == fun {
+						fun = ie
+						continue
+					}
+					break
+				}
+				call, ok := par[fun].(*ast.CallExpr)
+				if !ok || call.Fun != fun || call.Ellipsis.IsValid() || argIdx >= len(call.Args) {
+					okAll = false
+					return true
+				}
+				lit, ok := unparen(call.Args[argIdx]).(*ast.CompositeLit)
+				if !ok {
+					okAll = false
+					return true
+				}
+				for _, el := range lit.Elts {
+					kv, isKV := el.(*ast.KeyValueExpr)
+					if !isKV {
+						okAll = false
+						continue
+					}
+					if _, isId := kv.Key.(*ast.Ident); !isId {
+						okAll = false
+					}
+				}
+				sites = append(sites, site{call, lit})
+				return true
+			})
+		}
+		// other packages must not call it
+		for _, q := range fo.m.Roots {
+			if q == fo.p {
+				continue
+			}
+			for _, o := range q.TypesInfo.Uses {
+				if u, ok := o.(*types.Func); ok && u.Origin() == f {
+					okAll = false
+				}
+			}
+		}
+		if !okAll || len(sites) == 0 {
+			continue
+		}
+		// the field type expressions and zero values
+		var fieldType []ast.Expr
+		for _, file := range fo.p.Syntax {
+			ast.Inspect(file, func(n ast.Node) bool {
+				ts, ok := n.(*ast.TypeSpec)
+				if !ok || info.Defs[ts.Name] != types.Object(named.Obj()) {
+					return true
+				}
+				if stt, ok := ts.Type.(*ast.StructType); ok {
+					for _, fld := range stt.Fields.List {
+						k := len(fld.Names)
+						if k == 0 {
+							k = 1
+						}
+						for j := 0; j < k; j++ {
+							fieldType = append(fieldType, fld.Type)
+						}
+					}
+				}
+				return false
+			})
+		}
+		if len(fieldType) != st.NumFields() {
+			continue
+		}
+		zeroOK := true
+		for j := 0; j < st.NumFields(); j++ {
+			if fo.zeroValueExpr(st.Field(j).Type(), fd.Pos()) == nil {
+				zeroOK = false
+			}
+		}
+		if !zeroOK {
+			continue
+		}
+		// new parameters, and the local that rebuilds the struct
+		pos := fl.Pos()
+		var newFields []*ast.Field
+		var elts []ast.Expr
+		for j := 0; j < st.NumFields(); j++ {
+			fv := st.Field(j)
+			nv := types.NewParam(pos, fv.Pkg(), pobj.Name()+"_"+fv.Name(), fv.Type())
+			nid := &ast.Ident{Name: nv.Name(), NamePos: pos}
+			info.Defs[nid] = nv
+			cl := fo.newCloner(fd)
+			newFields = append(newFields, &ast.Field{Names: []*ast.Ident{nid}, Type: cl.node(fieldType[j]).(ast.Expr)})
+			use := &ast.Ident{Name: nv.Name(), NamePos: fd.Body.Lbrace}
+			info.Uses[use] = nv
+			info.Types[use] = types.TypeAndValue{Type: fv.Type()}
+			key := &ast.Ident{Name: fv.Name(), NamePos: fd.Body.Lbrace}
+			info.Uses[key] = fv
+			elts = append(elts, &ast.KeyValueExpr{Key: key, Value: use})
+		}
+		tcl := fo.newCloner(fd)
+		lit := &ast.CompositeLit{Type: tcl.node(fl.Type).(ast.Expr), Lbrace: fd.Body.Lbrace, Elts: elts, Rbrace: fd.Body.Lbrace}
+		info.Types[lit] = types.TypeAndValue{Type: named}
+		lv := types.NewVar(fd.Body.Lbrace, fo.p.Types, pobj.Name(), named)
+		lid := &ast.Ident{Name: lv.Name(), NamePos: fd.Body.Lbrace}
+		info.Defs[lid] = lv
+		def := &ast.AssignStmt{Lhs: []ast.Expr{lid}, Tok: token.DEFINE, TokPos: fd.Body.Lbrace, Rhs: []ast.Expr{lit}}
+		ast.Inspect(fd.Body, func(x ast.Node) bool {
+			if id, ok := x.(*ast.Ident); ok && info.Uses[id] == pobj {
+				info.Uses[id] = lv
+			}
+			return true
+		})
+		fd.Body.List = append([]ast.Stmt{def}, fd.Body.List...)
+		params := append([]*ast.Field{}, fd.Type.Params.List[:pi]...)
+		params = append(params, newFields...)
+		params = append(params, fd.Type.Params.List[pi+1:]...)
+		fd.Type.Params.List = params
+		// the call sites
+		for _, s := range sites {
+			vals := make([]ast.Expr, st.NumFields())
+			for _, el := range s.lit.Elts {
+				kv := el.(*ast.KeyValueExpr)
+				for j := 0; j < st.NumFields(); j++ {
+					if st.Field(j).Name() == kv.Key.(*ast.Ident).Name {
+						vals[j] = kv.Value
+					}
+				}
+			}
+			for j := range vals {
+				if vals[j] == nil {
+					vals[j] = fo.zeroValueExpr(st.Field(j).Type(), s.lit.Pos())
+				}
+			}
+			args := append([]ast.Expr{}, s.call.Args[:argIdx]...)
+			args = append(args, vals...)
+			args = append(args, s.call.Args[argIdx+1:]...)
+			s.call.Args = args
+			for _, file := range fo.p.Syntax {
+				if file.Pos() <= s.call.Pos() && s.call.Pos() <= file.End() {
+					for _, d := range file.Decls {
+						if cfd, ok := d.(*ast.FuncDecl); ok && cfd.Pos() <= s.call.Pos() && s.call.Pos() <= cfd.End() {
+							fo.touch(cfd)
+						}
+					}
+				}
+			}
+		}
+		pi += len(newFields) - 1
+		count++
+	}
+	return count
+}
+
+// coalesceParamCopies merges, in fd, every local `x := p` declared at the top level of the body, where p is a parameter
+// that is mentioned nowhere else in the function, with p: the uses of x become uses of p and the declaration is dropped.
+func (fo *folder) coalesceParamCopies(fd *ast.FuncDecl) int {
+	if fd.Type.Params == nil || fd.Body == nil {
+		return 0
+	}
+	params := map[types.Object]*ast.Ident{}
+	for _, fl := range fd.Type.Params.List {
+		for _, nm := range fl.Names {
+			if o := fo.info.Defs[nm]; o != nil && nm.Name != "_" {
+				params[o] = nm
+			}
+		}
+	}
+	uses := map[types.Object]int{}
+	ast.Inspect(fd.Body, func(x ast.Node) bool {
+		if id, ok := x.(*ast.Ident); ok {
+			if o := fo.info.Uses[id]; o != nil && params[o] != nil {
+				uses[o]++
+			}
+		}
+		return true
+	})
+	n := 0
+	for i, st := range fd.Body.List {
+		as, ok := st.(*ast.AssignStmt)
+		if !ok || as.Tok != token.DEFINE || len(as.Lhs) != 1 || len(as.Rhs) != 1 {
+			continue
+		}
+		lid, ok := as.Lhs[0].(*ast.Ident)
+		rid, ok2 := unparen(as.Rhs[0]).(*ast.Ident)
+		if !ok || !ok2 {
+			continue
+		}
+		x, p := fo.info.Defs[lid], fo.info.Uses[rid]
+		if x == nil || p == nil || params[p] == nil || uses[p] != 1 || !types.Identical(x.Type(), p.Type()) {
+			continue
+		}
+		ast.Inspect(fd.Body, func(y ast.Node) bool {
+			if id, ok := y.(*ast.Ident); ok && fo.info.Uses[id] == x {
+				fo.info.Uses[id] = p
+				id.Name = params[p].Name
+			}
+			return true
+		})
+		fd.Body.List[i] = &ast.EmptyStmt{Semicolon: as.Pos(), Implicit: true}
+		n++
+	}
+	return n
 }
 
 // scalarReplace replaces, in fd, every local variable v of a fresh named struct type T (or *T) that is created in place
